@@ -218,10 +218,66 @@ func keep3[A, B, C any](s *Store, f func() (A, B, C, error)) (A, B, C, error) {
 	return a, b, c, err
 }
 
-type KeepStorage struct{ s *Store }
+type KeepStorage struct {
+	s    *Store
+	full bool // see AsFullStorage
+}
 
 // AsKeepStorage: see KeepStorage.
-func (s *Store) AsKeepStorage() op.Storage { return KeepStorage{s} }
+func (s *Store) AsKeepStorage() op.Storage { return KeepStorage{s: s} }
+
+// AsFullStorage (round 11): a KeepStorage whose failing call has written EVERY field of its
+// out-parameter - also the fields the reference storage leaves to the framework because the framework
+// sets them itself after a successful call (a storage that restores a cached / upstream document with
+// `*resp = cached` and fails afterwards): IntrospectionResponse.Active = true, token_type, exp, iat, iss,
+// aud, jti, username; UserInfo.Subject, name, preferred_username, email whatever the scopes.
+// It differs from AsKeepStorage only in the methods with an out-parameter (FullMethods).
+func (s *Store) AsFullStorage() op.Storage { return KeepStorage{s: s, full: true} }
+
+// FullMethods: the storage methods with an out-parameter.
+var FullMethods = map[string]bool{"SetUserinfoFromScopes": true, "SetUserinfoFromToken": true, "SetIntrospectionFromToken": true,
+	"SetUserinfoFromRequest": true, "SetUserinfoFromTokenExchangeRequest": true}
+
+// ShapedMethods: the storage methods with an interface-typed, pointer, slice or map result (where
+// ShapeStorage differs from the reference storage).
+var ShapedMethods = map[string]bool{"CreateAuthRequest": true, "AuthRequestByID": true, "AuthRequestByCode": true,
+	"TokenRequestByRefreshToken": true, "SigningKey": true, "SignatureAlgorithms": true, "KeySet": true, "GetClientByClientID": true,
+	"GetPrivateClaimsFromScopes": true, "GetKeyByIDAndClientID": true, "ValidateJWTProfileScopes": true, "ClientCredentials": true,
+	"ClientCredentialsTokenRequest": true, "GetPrivateClaimsFromTokenExchangeRequest": true, "GetDeviceAuthorizatonState": true}
+
+// fullUserinfo / fullIntrospection run after an injected failure of a full KeepStorage (the redo has
+// filled the out-parameter as the reference storage does).
+func (k KeepStorage) fullUserinfo(ui *oidc.UserInfo, subject string) {
+	k.s.mu.Lock()
+	defer k.s.mu.Unlock()
+	ui.Subject = subject
+	if u := k.s.Users[subject]; u != nil {
+		ui.Name, ui.PreferredUsername, ui.Email, ui.EmailVerified = u.Name, u.Name, u.Email, true
+	}
+}
+
+func (k KeepStorage) fullIntrospection(resp *oidc.IntrospectionResponse, tokenID, subject, clientID string) {
+	ui := new(oidc.UserInfo)
+	k.fullUserinfo(ui, subject)
+	resp.SetUserInfo(ui)
+	now := time.Now()
+	resp.Active, resp.TokenType, resp.ClientID, resp.Subject, resp.Username = true, "Bearer", clientID, subject, ui.PreferredUsername
+	resp.Expiration, resp.IssuedAt = oidc.FromTime(now.Add(time.Hour)), oidc.FromTime(now.Add(-time.Minute))
+	resp.Issuer, resp.Audience, resp.JWTID = "https://cache.example.com", oidc.Audience{clientID}, tokenID
+	if resp.Scope == nil {
+		resp.Scope = oidc.SpaceDelimitedArray{oidc.ScopeOpenID}
+	}
+}
+
+// full0 is keep0 for a method with an out-parameter: fill runs after an injected failure when k.full.
+func full0(k KeepStorage, fill func(), f func() error) error {
+	n := k.s.faultSeq()
+	err := keep0(k.s, f)
+	if k.full && k.s.faultSeq() != n {
+		fill()
+	}
+	return err
+}
 
 func (k KeepStorage) CreateAuthRequest(ctx context.Context, req *oidc.AuthRequest, userID string) (op.AuthRequest, error) {
 	return keep1(k.s, func() (op.AuthRequest, error) { return k.s.CreateAuthRequest(ctx, req, userID) })
@@ -279,13 +335,13 @@ func (k KeepStorage) AuthorizeClientIDSecret(ctx context.Context, clientID, clie
 	return keep0(k.s, func() error { return k.s.AuthorizeClientIDSecret(ctx, clientID, clientSecret) })
 }
 func (k KeepStorage) SetUserinfoFromScopes(ctx context.Context, ui *oidc.UserInfo, userID, clientID string, scopes []string) error {
-	return keep0(k.s, func() error { return k.s.SetUserinfoFromScopes(ctx, ui, userID, clientID, scopes) })
+	return full0(k, func() { k.fullUserinfo(ui, userID) }, func() error { return k.s.SetUserinfoFromScopes(ctx, ui, userID, clientID, scopes) })
 }
 func (k KeepStorage) SetUserinfoFromToken(ctx context.Context, ui *oidc.UserInfo, tokenID, subject, origin string) error {
-	return keep0(k.s, func() error { return k.s.SetUserinfoFromToken(ctx, ui, tokenID, subject, origin) })
+	return full0(k, func() { k.fullUserinfo(ui, subject) }, func() error { return k.s.SetUserinfoFromToken(ctx, ui, tokenID, subject, origin) })
 }
 func (k KeepStorage) SetIntrospectionFromToken(ctx context.Context, resp *oidc.IntrospectionResponse, tokenID, subject, clientID string) error {
-	return keep0(k.s, func() error { return k.s.SetIntrospectionFromToken(ctx, resp, tokenID, subject, clientID) })
+	return full0(k, func() { k.fullIntrospection(resp, tokenID, subject, clientID) }, func() error { return k.s.SetIntrospectionFromToken(ctx, resp, tokenID, subject, clientID) })
 }
 func (k KeepStorage) GetPrivateClaimsFromScopes(ctx context.Context, userID, clientID string, scopes []string) (map[string]any, error) {
 	return keep1(k.s, func() (map[string]any, error) { return k.s.GetPrivateClaimsFromScopes(ctx, userID, clientID, scopes) })
@@ -300,7 +356,7 @@ func (k KeepStorage) Health(ctx context.Context) error {
 	return keep0(k.s, func() error { return k.s.Health(ctx) })
 }
 func (k KeepStorage) SetUserinfoFromRequest(ctx context.Context, ui *oidc.UserInfo, req op.IDTokenRequest, scopes []string) error {
-	return keep0(k.s, func() error { return k.s.SetUserinfoFromRequest(ctx, ui, req, scopes) })
+	return full0(k, func() { k.fullUserinfo(ui, req.GetSubject()) }, func() error { return k.s.SetUserinfoFromRequest(ctx, ui, req, scopes) })
 }
 func (k KeepStorage) ClientCredentials(ctx context.Context, clientID, clientSecret string) (op.Client, error) {
 	return keep1(k.s, func() (op.Client, error) { return CC{k.s}.ClientCredentials(ctx, clientID, clientSecret) })
@@ -318,7 +374,7 @@ func (k KeepStorage) GetPrivateClaimsFromTokenExchangeRequest(ctx context.Contex
 	return keep1(k.s, func() (map[string]any, error) { return TE{k.s}.GetPrivateClaimsFromTokenExchangeRequest(ctx, request) })
 }
 func (k KeepStorage) SetUserinfoFromTokenExchangeRequest(ctx context.Context, ui *oidc.UserInfo, request op.TokenExchangeRequest) error {
-	return keep0(k.s, func() error { return TE{k.s}.SetUserinfoFromTokenExchangeRequest(ctx, ui, request) })
+	return full0(k, func() { k.fullUserinfo(ui, request.GetSubject()) }, func() error { return TE{k.s}.SetUserinfoFromTokenExchangeRequest(ctx, ui, request) })
 }
 func (k KeepStorage) StoreDeviceAuthorization(ctx context.Context, clientID, deviceCode, userCode string, expires time.Time, scopes []string) error {
 	return keep0(k.s, func() error {
@@ -335,4 +391,105 @@ var (
 	_ op.ClientCredentialsStorage   = KeepStorage{}
 	_ op.TokenExchangeStorage       = KeepStorage{}
 	_ op.DeviceAuthorizationStorage = KeepStorage{}
+)
+
+// ---- ShapeStorage (C10, round 11): WHAT a failing call returns besides the error. The reference
+// storage returns untyped nils / zero values; KeepStorage returns the complete results. The two
+// shapes in between, both common with database backed storages:
+//
+//   - ShapeNilPtr: `var req *AuthRequest; ...; return req, err` - every interface-typed result holds a
+//     typed nil POINTER of the storage's concrete type (so `result == nil` is false on the interface and
+//     any method call on it dereferences nil), pointer / slice / map results are nil;
+//   - ShapeZero: `req := &AuthRequest{}; err := row.Scan(...); return req, err` - every interface-typed,
+//     pointer, slice and map result is a non-nil, EMPTY object (all getters answer "" / nil / zero).
+//
+// The failing call has no side effect (as in the reference storage); journal, counter and fault plan
+// are untouched. The optional interfaces are those of AsStorage(true, true, true).
+type ResultShape int
+
+const (
+	ShapeNilPtr ResultShape = iota + 1
+	ShapeZero
+)
+
+type ShapeStorage struct {
+	*Store
+	CC
+	TE
+	Dev
+	shape ResultShape
+}
+
+// AsShapeStorage: see ShapeStorage.
+func (s *Store) AsShapeStorage(shape ResultShape) op.Storage {
+	return ShapeStorage{s, CC{s}, TE{s}, Dev{s}, shape}
+}
+
+// shaped1 replaces the result of a call in which a failure was injected by nilptr / zero.
+func shaped1[A any](h ShapeStorage, nilptr, zero A, f func() (A, error)) (A, error) {
+	n := h.Store.faultSeq()
+	a, err := f()
+	if h.Store.faultSeq() != n {
+		if h.shape == ShapeZero {
+			return zero, err
+		}
+		return nilptr, err
+	}
+	return a, err
+}
+
+func (h ShapeStorage) CreateAuthRequest(ctx context.Context, req *oidc.AuthRequest, userID string) (op.AuthRequest, error) {
+	return shaped1[op.AuthRequest](h, (*AuthRequest)(nil), &AuthRequest{}, func() (op.AuthRequest, error) { return h.Store.CreateAuthRequest(ctx, req, userID) })
+}
+func (h ShapeStorage) AuthRequestByID(ctx context.Context, id string) (op.AuthRequest, error) {
+	return shaped1[op.AuthRequest](h, (*AuthRequest)(nil), &AuthRequest{}, func() (op.AuthRequest, error) { return h.Store.AuthRequestByID(ctx, id) })
+}
+func (h ShapeStorage) AuthRequestByCode(ctx context.Context, code string) (op.AuthRequest, error) {
+	return shaped1[op.AuthRequest](h, (*AuthRequest)(nil), &AuthRequest{}, func() (op.AuthRequest, error) { return h.Store.AuthRequestByCode(ctx, code) })
+}
+func (h ShapeStorage) TokenRequestByRefreshToken(ctx context.Context, refreshToken string) (op.RefreshTokenRequest, error) {
+	return shaped1[op.RefreshTokenRequest](h, (*refreshRequest)(nil), &refreshRequest{t: &RefreshToken{}}, func() (op.RefreshTokenRequest, error) {
+		return h.Store.TokenRequestByRefreshToken(ctx, refreshToken)
+	})
+}
+func (h ShapeStorage) SigningKey(ctx context.Context) (op.SigningKey, error) {
+	return shaped1[op.SigningKey](h, (*SigningKey)(nil), &SigningKey{}, func() (op.SigningKey, error) { return h.Store.SigningKey(ctx) })
+}
+func (h ShapeStorage) SignatureAlgorithms(ctx context.Context) ([]jose.SignatureAlgorithm, error) {
+	return shaped1(h, nil, []jose.SignatureAlgorithm{}, func() ([]jose.SignatureAlgorithm, error) { return h.Store.SignatureAlgorithms(ctx) })
+}
+func (h ShapeStorage) KeySet(ctx context.Context) ([]op.Key, error) {
+	return shaped1(h, nil, []op.Key{}, func() ([]op.Key, error) { return h.Store.KeySet(ctx) })
+}
+func (h ShapeStorage) GetClientByClientID(ctx context.Context, clientID string) (op.Client, error) {
+	return shaped1[op.Client](h, (*clientView)(nil), clientView{&Client{}}, func() (op.Client, error) { return h.Store.GetClientByClientID(ctx, clientID) })
+}
+func (h ShapeStorage) GetPrivateClaimsFromScopes(ctx context.Context, userID, clientID string, scopes []string) (map[string]any, error) {
+	return shaped1(h, nil, map[string]any{}, func() (map[string]any, error) { return h.Store.GetPrivateClaimsFromScopes(ctx, userID, clientID, scopes) })
+}
+func (h ShapeStorage) GetKeyByIDAndClientID(ctx context.Context, keyID, clientID string) (*jose.JSONWebKey, error) {
+	return shaped1(h, nil, &jose.JSONWebKey{}, func() (*jose.JSONWebKey, error) { return h.Store.GetKeyByIDAndClientID(ctx, keyID, clientID) })
+}
+func (h ShapeStorage) ValidateJWTProfileScopes(ctx context.Context, userID string, scopes []string) ([]string, error) {
+	return shaped1(h, nil, []string{}, func() ([]string, error) { return h.Store.ValidateJWTProfileScopes(ctx, userID, scopes) })
+}
+func (h ShapeStorage) ClientCredentials(ctx context.Context, clientID, clientSecret string) (op.Client, error) {
+	return shaped1[op.Client](h, (*clientView)(nil), clientView{&Client{}}, func() (op.Client, error) { return h.CC.ClientCredentials(ctx, clientID, clientSecret) })
+}
+func (h ShapeStorage) ClientCredentialsTokenRequest(ctx context.Context, clientID string, scopes []string) (op.TokenRequest, error) {
+	return shaped1[op.TokenRequest](h, (*ccRequest)(nil), &ccRequest{}, func() (op.TokenRequest, error) { return h.CC.ClientCredentialsTokenRequest(ctx, clientID, scopes) })
+}
+func (h ShapeStorage) GetPrivateClaimsFromTokenExchangeRequest(ctx context.Context, request op.TokenExchangeRequest) (map[string]any, error) {
+	return shaped1(h, nil, map[string]any{}, func() (map[string]any, error) { return h.TE.GetPrivateClaimsFromTokenExchangeRequest(ctx, request) })
+}
+func (h ShapeStorage) GetDeviceAuthorizatonState(ctx context.Context, clientID, deviceCode string) (*op.DeviceAuthorizationState, error) {
+	return shaped1(h, nil, &op.DeviceAuthorizationState{}, func() (*op.DeviceAuthorizationState, error) { return h.Dev.GetDeviceAuthorizatonState(ctx, clientID, deviceCode) })
+}
+
+var (
+	_ op.Storage                    = ShapeStorage{}
+	_ op.CanSetUserinfoFromRequest  = ShapeStorage{}
+	_ op.ClientCredentialsStorage   = ShapeStorage{}
+	_ op.TokenExchangeStorage       = ShapeStorage{}
+	_ op.DeviceAuthorizationStorage = ShapeStorage{}
 )
